@@ -98,7 +98,7 @@ def main(argv=None) -> int:
         except HarnessError as e:
             print(f"HARNESS-ERROR property={prop_id} {e}")
             return 2
-        unknown = [v for v in viols if v.key not in known_keys and v.key != "INCONCLUSIVE"]
+        unknown = [v for v in viols if v.key not in known_keys and v.key not in ("INCONCLUSIVE", "REJECTED")]
         for v in viols:
             print(f"  replay: {v.key}: {v.detail}")
         if unknown:
@@ -163,6 +163,7 @@ def main(argv=None) -> int:
     samples = {}
     excluded = {}
     inconclusive = 0
+    rejected = 0
     evaluations = 0
     violations = {}
     for r in results:
@@ -180,6 +181,7 @@ def main(argv=None) -> int:
         for k, c in r["excluded_known"].items():
             excluded[k] = excluded.get(k, 0) + c
         inconclusive += r["inconclusive"]
+        rejected += r.get("rejected", 0)
         for v in r["violations"]:
             violations.setdefault(v["key"], v)
             ps["violations"] += 1
@@ -220,6 +222,7 @@ def main(argv=None) -> int:
             "known_findings": known_status,
             "fixed_findings": [f"{e.get('commit','?')} {e['what']}" for e in fixed],
             "inconclusive": inconclusive,
+            "rejected_outside_domain": rejected,
             "exhaustive": bool(subs) and all(sc.exhaustive for sc in subs),
             "violation_keys": sorted(violations),
             "harness_errors": harness_errors[:5],
@@ -240,7 +243,7 @@ def main(argv=None) -> int:
         print(f"  excluded (known findings): {excluded}")
     print(f"{prop_id} tier={tier} seed={seed} evaluations={evaluations} "
           f"distinct_nontrivial={len(all_nt)} violations={len(violations)} "
-          f"inconclusive={inconclusive} wall={wall:.1f}s")
+          f"inconclusive={inconclusive} rejected={rejected} wall={wall:.1f}s")
 
     if violations:
         return 1
